@@ -9,6 +9,7 @@ pub mod c05;
 pub mod c06;
 pub mod c08;
 pub mod c10;
+pub mod c11;
 pub mod c12;
 pub mod c13;
 pub mod c14;
@@ -28,6 +29,7 @@ pub fn clauses(property: &str) -> Vec<Clause> {
         "C06" => c06::clauses(),
         "C08" => c08::clauses(),
         "C10" => c10::clauses(),
+        "C11" => c11::clauses(),
         "C12" => c12::clauses(),
         "C13" => c13::clauses(),
         "C14" => c14::clauses(),
@@ -48,6 +50,7 @@ pub fn property_rule(property: &str) -> String {
         "C06" => "CTI / NET / CoG at Q and f64 vs Pearson r, Kendall tau, CoG formula on full windows; negation and rank-invariance relations".into(),
         "C08" => "readiness never reverts and every value is finite (enumerated singles, generated chains, long runs); warm-up table incl. gating leaves; no change when nothing is delivered".into(),
         "C10" => "three instances fed x, y and a x + b y: out_z = a out_x + b out_y exactly in Q; DC gain clauses enumerated over N".into(),
+        "C11" => "nine Ehlers-style views at Q and f64 vs independent batch references of their difference equations, every step; branch signatures reported".into(),
         "C12" => "metamorphic pairs: x vs a x + b, a x, -x through two instances; exact in Q for rational a, b; bit-exact in f64 for a = 2^k and for negation".into(),
         "C13" => "WelfordRolling / Drawdown / LnReturn vs batch definitions over the whole history, exact and f64, long streams".into(),
         "C14" => "combinators and pure functions vs the operation applied to stand-alone twins of their children, bit-exact; history independence".into(),
@@ -94,6 +97,12 @@ pub fn property_assumptions(property: &str) -> Vec<String> {
             v.push("'for ever' is explored to 1e6 updates".into());
         }
         "C10" => v.push("DC clauses: 'once the start-up transient has decayed' = after T = 100 max(N, M, 25) steps, tolerance 1e-6 |c|".into()),
+        "C11" => {
+            v.push("conventions made explicit: zero initial filter state; previous input 0 for SuperSmoother/Roofing, first value for TrendFlex/ReFlex; first-value state for LaguerreFilter; zero state and gamma = 2/(N+1) for LaguerreRSI; window = N filter values incl. the current; Roofing feeds its smoother from the (N+2)-th value; EFT: flat window => 0 without touching the average, first transform output 0, clamp +-0.99".into());
+            v.push("view minima for the definitional property: TrendFlex, ReFlex, PFE 3; RoofingFilter 2; CyberCycle 6 (the window must hold the six prices Smooth[2] reads)".into());
+            v.push("`1.414*pi` and `4.4422` denote the same constant to 5 digits: the admissible band is the hull of both spellings".into());
+            v.push("exact agreement on sampled rational inputs extends to all reals only branch by branch: the evidence lists the branches covered".into());
+        }
         "C12" => {
             v.push("Vst on a flat window returns x_t itself (C02's convention), which scales with a: flat windows are exempt for Vst in the scale clause ('not degenerate' proviso); Rsi on a flat window is 100 on both sides: exempt in the negation clause".into());
             v.push("EFT is exercised with its default Ema(3) smoothing".into());
